@@ -392,3 +392,15 @@ func FSWrite(f *os.File, b []byte) (int, error) {
 // KnobInit wraps the initialiser of a package-level variable that replaced a
 // constant (cluster.CHUNKSIZE); the harness assigns the variable directly.
 func KnobInit(name string, def int) int { return def }
+
+// StopTimeJumps ends scheduler-initiated advances of simulated time (the fault
+// phase is over; bounded-liveness probes follow). Timers still fire when every
+// task is blocked, as always.
+func StopTimeJumps() {
+	if S == nil {
+		return
+	}
+	S.mu.Lock()
+	S.cfg.TimeJumpProb = 0
+	S.mu.Unlock()
+}
